@@ -105,6 +105,19 @@ def c11(case, det):
                         ok = False
         if ok:
             return "KF-25"
+    # KF-38: legacy analyzer: which node is "the target" for star expansion is picked by set iteration among the written-but-not-read
+    # nodes (the real target and any anonymous WHERE sub-query), so a star over a derived table is expanded or not depending on the hash seed
+    if case.get("dialect") == "non-validating" and "*" in case["sql"] and feat["where_has_subquery"] and fields <= {"cyto_column", "column_paths"} | extra_fields:
+        ok = False
+        for fld in ("column_paths", "column_paths_incl_subquery"):
+            if fld in a:
+                da = [x for x in a[fld] if x not in b[fld]]
+                db = [x for x in b[fld] if x not in a[fld]]
+                # one side holds the unexpanded star paths
+                if any(c.endswith(".*") for p in da for c in p) != any(c.endswith(".*") for p in db for c in p):
+                    ok = True
+        if ok:
+            return "KF-38"
     # KF-17: SELECT * over a join of tables whose metadata share a column name: the shared name is attributed to
     # whichever table the set yields first
     md = case.get("metadata") or {}
